@@ -82,6 +82,16 @@ fn load_interface_from_paths(
                 package
             )));
         }
+        if unit.format_version != crate::artifact::FORMAT_VERSION
+            || unit.compiler_abi != crate::artifact::COMPILER_ABI
+        {
+            return Err(compile_error(format!(
+                "interface {} was written by an incompatible compiler (format_version {}, compiler_abi {})",
+                candidate.display(),
+                unit.format_version,
+                unit.compiler_abi
+            )));
+        }
         if !unit.validate_hash() {
             return Err(compile_error(format!(
                 "interface {} has invalid interface_hash",
